@@ -161,7 +161,21 @@ def two_process(ctx, root):
     return dom
 
 
+def deductive(ctx):
+    """engine D: PersistentCache.get_or_calculate_hash preserves the store invariant (stores only the
+    freshly calculated hash, under the entry determined by the key alone; otherwise returns that entry)"""
+    from contracts import persistent_cache as PC
+    from pyvc.verify import verify, summarize
+
+    summarize(ctx, verify(ctx, PC.contract()))
+
+
 def run(ctx):
+    deductive(ctx)
+    _run_bounded(ctx)
+
+
+def _run_bounded(ctx):
     ctx.level = "other"
     ctx.explanation = (
         "every short history of file operations (rewrite with same/different size, mtime restore, rename over, timestamp-preserving copy) interleaved with hash computations "
